@@ -182,9 +182,7 @@ func (w *World) value(key, vc string, arg int) []byte {
 		// estimated framing overhead: chunk header 7 + type 1 + varints (1 + 3) + batch id 1 + key
 		over := 7 + 1 + 1 + 3 + 1 + len(key)
 		n := 32768 - arg - off - over
-		if n < 0 {
-			n += 32768
-		}
+		n = ((n % 32768) + 32768) % 32768
 		return fill(n)
 	}
 	panic("unknown value class " + vc)
@@ -511,7 +509,9 @@ func (w *World) Apply(op Op) ApplyResult {
 	case "sync":
 		return ApplyResult{Err: w.guard(func() error { return w.DB.Sync() })}
 	case "merge":
+		sched.MapPerm = op.Arg
 		err := w.guard(func() error { return w.DB.Merge() })
+		sched.MapPerm = 0
 		if err == nil {
 			w.Cnt["merge_ok"]++
 		}
